@@ -72,7 +72,9 @@ func newRegUniverse() (*regUniverse, error) {
 		{id: 1, svc: "SvcA", name: "M1", rule: getRule("/c11/v/{name=a/*}"), keys: []int{101, 1}, samples: [][2]string{{"POST", ""}, {"GET", "/c11/v/a/n1"}}},
 		{id: 2, svc: "SvcA", name: "M2", rule: postRule("/c11/v/a2", "*"), keys: []int{102, 2}, samples: [][2]string{{"POST", ""}, {"POST", "/c11/v/a2"}}},
 		{id: 3, svc: "SvcB", name: "M3", rule: getRule("/c11/v/{name=b/*}/x/{i32}"), keys: []int{103, 3}, samples: [][2]string{{"POST", ""}, {"GET", "/c11/v/b/n3/x/7"}}},
-		{id: 4, svc: "SvcB", name: "M4", keys: []int{104}, samples: [][2]string{{"POST", ""}}},
+		// M4's only annotated route lies BELOW M7's implicit path: the node /verif.v1.SvcE/M7 then holds
+		// nothing but M7's kind-'*' binding and a child; removing M4's rule must not prune it.
+		{id: 4, svc: "SvcB", name: "M4", rule: getRule("/" + fxPkg + ".SvcE/M7/extra"), keys: []int{104, 8}, samples: [][2]string{{"POST", ""}, {"GET", "/" + fxPkg + ".SvcE/M7/extra"}}},
 		{id: 5, svc: "SvcC", name: "M5", rule: getRule("/c11/v/{name=a/*}"), keys: []int{105, 1}, samples: [][2]string{{"POST", ""}, {"GET", "/c11/v/a/n5"}}},
 		{id: 6, svc: "SvcD", name: "M6", rule: d, keys: []int{106, 4, 5}, samples: [][2]string{{"POST", ""}, {"GET", "/c11/v/c/x/y"}, {"GET", "/c11/w/z"}}},
 		{id: 7, svc: "SvcE", name: "M7", rule: getRule("/c11/v/{name}"), keys: []int{107, 6}, samples: [][2]string{{"POST", ""}, {"GET", "/c11/v/solo"}}},
